@@ -104,6 +104,18 @@ def instances(tier: str) -> list[dict]:
             used.append(dict(i, used=True))
     rnd.shuffle(used)
     out.extend(used[: (40 if tier == "quick" else 400)])
+    # six-module trees: the full relation (25-26 variables) is beyond the path budget in the be-accessed-by direction;
+    # a seeded concrete relation with a window of 13 symbolic pairs around the layers' modules instead
+    from vf.universes import random_window
+
+    wrnd = random.Random(runner.seed() * 17 + 5)
+    for i in out:
+        if i["tree"].startswith("T6"):
+            nodes = concrete(i["tree"], i["naming"])
+            members = [m for l in i["spec"]["layers"] for m in (l[2] if l[1] == "names" else [n for n in nodes if re.match(l[2][0], n)])]
+            win, bg = random_window(wrnd, nodes, 13, density=wrnd.choice((0.0, 0.05, 0.15)), focus=members)
+            i["window"] = [list(p) for p in win]
+            i["background"] = [list(p) for p in bg]
     for i in out:
         i["cap"] = CAPS[tier]
     return out
@@ -156,7 +168,7 @@ def work(inst: dict) -> dict:
     spec = LayerSpec.from_json(inst["spec"])
     nodes = concrete(inst["tree"], inst["naming"])
     label = f"{inst['tree']}/{inst['naming']}: {spec.label()}" + (" [rule object used on another code base first]" if inst.get("used") else "")
-    arch = SymArch(nodes)
+    arch = SymArch(nodes, window=[tuple(p) for p in inst["window"]], background=[tuple(p) for p in inst["background"]]) if "window" in inst else SymArch(nodes)
     before = solver().stats()
     shared = used_rule(spec, nodes) if inst.get("used") else None
 
